@@ -20,10 +20,13 @@ func (q queryServer) ListBid(ctx context.Context, req *types.QueryAllBidRequest)
 		return nil, status.Error(codes.InvalidArgument, "invalid request")
 	}
 
+	var bidder sdk.AccAddress
 	if req.Bidder != "" {
-		if _, err := sdk.AccAddressFromBech32(req.Bidder); err != nil {
+		addr, err := sdk.AccAddressFromBech32(req.Bidder)
+		if err != nil {
 			return nil, status.Error(codes.InvalidArgument, "invalid bidder")
 		}
+		bidder = addr
 	}
 	var isMatched *bool
 	if req.IsMatched != "" {
@@ -40,8 +43,11 @@ func (q queryServer) ListBid(ctx context.Context, req *types.QueryAllBidRequest)
 		q.k.Bid,
 		req.Pagination,
 		func(_ collections.Pair[uint64, uint64], bid types.Bid) (bool, error) {
-			if req.Bidder != "" && bid.Bidder != req.Bidder {
-				return false, nil
+			if bidder != nil {
+				// compare accounts, not spellings: bech32 may be written in upper case
+				if addr, err := sdk.AccAddressFromBech32(bid.Bidder); err != nil || !addr.Equals(bidder) {
+					return false, nil
+				}
 			}
 			if isMatched != nil && bid.IsMatched != *isMatched {
 				return false, nil
